@@ -62,8 +62,8 @@ theorem RelR.eq_iff {x y : R α} : RelR (· = ·) x y ↔ x = y := by
 theorem RelR.error_iff {r : α → β → Prop} {x : R α} {y : R β} (h : RelR r x y) (e : Fault) :
     x = .error e ↔ y = .error e := by
   cases x <;> cases y <;> simp only [RelR] at h
-  · subst h; exact Iff.rfl
-  · constructor <;> intro h' <;> cases h'
+  · subst h; simp
+  · simp
 
 theorem RelR.ok_left {r : α → β → Prop} {x : R α} {y : R β} (h : RelR r x y) {a : α} (hx : x = .ok a) :
     ∃ b, y = .ok b ∧ r a b := by
@@ -149,7 +149,7 @@ section StoreLevel
 variable [TickRel d] {s t : Store P}
 
 theorem swap_rel (h : Rel d s t) (a b : Nat) : RelR (Rel d) (s.swap a b) (t.swap a b) := by
-  refine h.elim fun m hp q z n₁ n₂ hd => ?_
+  apply h.elim; intro m hp q z n₁ n₂ hd
   simp only [Store.swap]
   refine RelR.bind_same _ fun ia => ?_
   refine RelR.bind_same _ fun ib => ?_
@@ -158,7 +158,7 @@ theorem swap_rel (h : Rel d s t) (a b : Nat) : RelR (Rel d) (s.swap a b) (t.swap
   exact RelR.pure (by rel_done)
 
 theorem prioAt_rel (h : Rel d s t) (pos : Nat) : s.prioAt pos = t.prioAt pos := by
-  refine h.elim fun m hp q z n₁ n₂ hd => ?_
+  apply h.elim; intro m hp q z n₁ n₂ hd
   rfl
 
 end StoreLevel
